@@ -9,6 +9,9 @@ mod c06;
 mod c07;
 mod c08;
 mod c09;
+mod c10;
+mod c12;
+mod c13;
 mod c15;
 mod c16;
 mod c18;
@@ -76,12 +79,19 @@ fn main() {
         "c03" => streams::run_family(&p, &streams::C03),
         "c04" => c04::run(&p),
         "c05" => streams::run_family(&p, &streams::C05),
+        "c10" => c10::run(&p),
         "c11" => streams::run_family(&p, &streams::C11),
+        "c12" => c12::run(&p),
+        "c13" => c13::run(&p),
         "c15" => c15::run(&p),
         "c16" => c16::run(&p),
         "c18" => c18::run(&p),
         "c20" => c20::run(&p),
         "noop" => (Stats::new(), "noop"),
+        "c10-debug" => {
+            c10::debug(p.get("seq").unwrap_or(""), p.seed);
+            return;
+        }
         "rerun" => {
             // vmux rerun --prop c02 --run-seed N [--tail K]
             let prop = p.get("prop").unwrap_or("c02").to_string();
